@@ -304,7 +304,9 @@ def run_job(job, tu, safety, scratch, want_trace=False, only_props=None):
         r['times']['solver'] = st
         for res in results:
             desc = res.get('description', ''); name = res.get('property', '')
-            ob = {'name': name, 'desc': desc, 'status': res.get('status'), 'props': classify_label(desc, name, job['props'][0] if job.get('mode') == 'dfcc' else None),
+            props_ = classify_label(desc, name, job['props'][0] if job.get('mode') == 'dfcc' else None)
+            if desc.startswith('C11: HFSM2_ASSERT') and job.get('assert_props'): props_ = props_ + list(job['assert_props'])   # the library's own assertions also decide these properties in this job
+            ob = {'name': name, 'desc': desc, 'status': res.get('status'), 'props': props_,
                   'function': (res.get('sourceLocation') or {}).get('function', ''), 'line': (res.get('sourceLocation') or {}).get('line', '')}
             if res.get('status') == 'FAILURE' and 'trace' in res:
                 ob['inputs'] = extract_inputs(res['trace'])
@@ -316,6 +318,7 @@ def run_job(job, tu, safety, scratch, want_trace=False, only_props=None):
 # ------------------------------------------------------------------------------------------ main check
 
 def finding_matches(f, job, ob):
+    if f.get('tag') and f['tag'] not in job.get('tags', []): return False      # case keys for which the finding's delimiting predicate holds (computed in proofs/jobs.py)
     return re.search(f['job'], job['id']) and f['obligation'] in ob['desc']
 
 def native_replay(tu, job, ob, outdir):
